@@ -26,7 +26,7 @@ EXPLANATION = ('Layer 1: every registered binary rule is attempted on every orde
                '(validation of the abstraction).')
 FUNCTIONS = ['AlgebraicReductionRule.apply', 'IdentityRule.apply', 'HomothetyRule.apply', 'AbstractBinaryRule.check', 'InverseBinaryRule.check', 'BINARY_RULE_REGISTRY and every registered rule (table layer)',
              'CompositionOperator.reduce (layer 3)']
-BOUNDS = {'quick': 'layer 2: chains of length 2-3 over 40 codes (26 kinds + scalar/identity on 7 structures) and chains of length 4 over a 13-code alphabet of the kinds that take part in vanishing/regenerating patterns, scalar values in -3..3; layer 3: all real chains of length 2-3 and all real chains X @ (vanishing pair) @ Y [@ Z]',
+BOUNDS = {'quick': 'layer 2: chains of length 2-3 over 40 codes (26 kinds + scalar/identity on 7 structures) and chains X, p, q, Y[, Z] of length 4-5 over a 13-code alphabet where p @ q is a vanishing pattern, scalar values in -3..3; layer 3: all real chains of length 2-3 and all real chains X @ (vanishing pair) @ Y [@ Z]',
           'thorough': 'layer 2: chains of length <= 4; layer 3: real chains of length <= 4'}
 STUBS = ['rules.HomothetyOperator / IdentityOperator / jnp / BINARY_RULE_REGISTRY bound to table-driven stubs inside the CrossHair run (the driver code itself is the real one)']
 ASSUMPTIONS = ['chains longer than the bound are outside the claim', 'identities produced by a rule mid-scan are not required to be removed (the property does not demand it)']
@@ -59,9 +59,10 @@ def twins():
     return [('twin-ch',)]
 
 
-def _crosshair(first, maxlen, timeout, mutant=False, allowed=None, minlen=2):
+def _crosshair(first, maxlen, timeout, mutant=False, allowed=None, minlen=2, nested=False):
     env = dict(os.environ, C07_FIRST=str(first), C07_MAXLEN=str(maxlen), C07_MINLEN=str(minlen), PYTHONPATH=VERIF + os.pathsep + os.environ.get('PYTHONPATH', ''))
     env['C07_ALLOWED'] = ','.join(map(str, allowed)) if allowed else ''
+    env['C07_NESTED'] = '1' if nested else ''
     if mutant:
         env['C07_MUTANT'] = '1'
     target = os.path.join(VERIF, 'fxv', 'ch', 'c07_driver_mut.py' if mutant else 'c07_driver.py')
@@ -74,12 +75,15 @@ def _crosshair(first, maxlen, timeout, mutant=False, allowed=None, minlen=2):
 def _parse(out):
     if 'Confirmed over all paths' in out:
         return 'confirmed', None
-    m = re.search(r'error: false when calling _normal_form\w*\((.*)\)', out, re.S)
+    m = re.search(r'error: false when calling _n\w*\((.*)\)', out, re.S)
     if m:
         args = m.group(1)
         mm = re.search(r'codes\s*=\s*(\[[^\]]*\]).*values\s*=\s*(\[[^\]]*\])', args) or re.search(r'(\[[^\]]*\]),\s*(\[[^\]]*\])', args)
         if mm:
             return 'counterexample', (ast.literal_eval(mm.group(1)), ast.literal_eval(mm.group(2)))
+        nums = re.findall(r'-?\d+', args)
+        if len(nums) >= 5:
+            return 'counterexample-nested', [int(n) for n in nums[:5]]
         return 'counterexample-unparsed', args
     if 'error:' in out:
         return 'error', out[-600:]
@@ -106,13 +110,21 @@ def run_case(key, twin=False):
     per = 240 if maxlen <= 3 else 1500
     if key[0] == 'ch-small':
         per = 500
-        out, dt = _crosshair(first, maxlen, per, allowed=_small_alphabet(M), minlen=maxlen)
+        out, dt = _crosshair(first, maxlen + 1, per, allowed=_small_alphabet(M), minlen=maxlen, nested=True)
     else:
         out, dt = _crosshair(first, maxlen, per)
     st, info = _parse(out)
     name = M.NAMES[first] if first < M.NK else (f'scalar@{first - M.NK}' if first < M.NK + M.NS else f'identity@{first - M.NK - M.NS}')
     if st == 'confirmed':
         return ok(obligations=1, nontrivial=True, solver_s=dt, sample=dict(head=name, maxlen=maxlen, verdict='Confirmed over all paths', seconds=round(dt, 1)))
+    if st == 'counterexample-nested':
+        # rebuild the chain from the indices exactly as the harness does
+        ip, iy, iz, v0, v1 = info
+        small = _small_alphabet(M)
+        van = [list(k) for k, v in M.TABLE.items() if v == [] and k[0] in small and k[1] in small]
+        codes = [first, van[ip][0], van[ip][1], small[iy]] + ([small[iz]] if iz >= 0 else [])
+        values = [v0, 1, 1, v1, 2][:len(codes)]
+        st, info = 'counterexample', (codes, values)
     if st == 'counterexample':
         codes, values = info
         chain = [M.NAMES[c] if c < M.NK else (f'H{values[i]}@{c - M.NK}' if c < M.NK + M.NS else f'I@{c - M.NK - M.NS}') for i, c in enumerate(codes)]
